@@ -26,23 +26,22 @@ func (m *consumptions) SendToAll(p Pack, keyframe bool) {
 func (m *consumptions) RemoveAndCloseAll() {
 	m.Range(func(key, value interface{}) bool {
 		c := value.(*consumption)
-		m.Delete(key)
-		c.Close()
+		if _, ok := m.LoadAndDelete(key); ok { // 只有真正移除者才减计数并关闭
+			atomic.AddInt32(&m.count, -1)
+			c.Close()
+		}
 		return true
 	})
-
-	atomic.StoreInt32(&m.count, 0)
 }
 
 func (m *consumptions) Add(c *consumption) {
+	atomic.AddInt32(&m.count, 1) // 先计数后登记，计数永不为负
 	m.Store(c.cid, c)
-	atomic.AddInt32(&m.count, 1)
 }
 
 func (m *consumptions) Remove(cid CID) *consumption {
-	ci, ok := m.Load(cid)
+	ci, ok := m.LoadAndDelete(cid) // 原子移除，避免并发移除同一消费者时重复减计数
 	if ok {
-		m.Delete(cid)
 		atomic.AddInt32(&m.count, -1)
 		return ci.(*consumption)
 	}
